@@ -54,7 +54,10 @@ def alphabet():
         # whole phrases on the boundaries the other properties' domains stop at (a day or more added to a time, month ends, zero divisors ...)
         ["11:30 + 25 hours", "10:00 + 1 day", "22:15 - 3 days 2 hours", "0:00 - 1 second", "23:59:59 + 86400 seconds", "31/1/2021 + 1 month", "29/2/2020 - 1 year", "1/1/1 - 1 day",
          "31/12/9999 + 1 day", "1/1/2020 + 9999999 years", "10 usd / 0 usd", "5 km / 0 m", "0% of 0", "8 is 0% of what", "0 is what % of 0", "1 yb to bit", "1 bit to yb",
-         "11:30 to 11:30", "today to today", "1k km to mm", "0x7FFFFFFFFFFFFFFF + 1", "9007199254740993 to hex", "-5 to hex", "1,5 to binary"],
+         "11:30 to 11:30", "today to today", "1k km to mm", "0x7FFFFFFFFFFFFFFF + 1", "9007199254740993 to hex", "-5 to hex", "1,5 to binary",
+         # the ends of the calendar the date library can represent (years -262143 .. 262142)
+         "12/12/262142 + 19 days", "12/12/262142 + 3 weeks", "31/12/262142 + 1 day", "12/12/2020 + 260122 years 25 days", "1/1/2020 - 264163 years", "1/1/262142 - 1 day",
+         "12/12/262142 to 1/1/1", "31/12/262142 at 23:59 + 2 hours", "12/12/262143", "1/1/2020 - 264162 years 3 weeks"],
         ["99999999999999999 to date", "-99999999999999999 to date", "1 oct 2022 at 10:00", "1/1/2020 at 24", "1/1/2020 at -1", "1/1/2020 at 1000000000", "today at 12", "1664582400 to EST"],
     ]
     return A
